@@ -47,7 +47,7 @@ Example C03_example : in_rfc [36;46;128512;91;63;64;61;61;45;48;46;53;101;43;50;
 Proof. vm_compute. reflexivity. Qed.
 
 (* the lexer's regular expressions and ESCAPES in the model are the ones REGENERATED from lex.py on this run *)
-From JP Require Import Proofs.GenTies Gen.LexConst Model.Lex.
+From JP Require Import Proofs.TieLex Gen.LexConst Model.Lex.
 Theorem C03_lexer_tables_regenerated :
   g_RE_WHITESPACE = RE_WHITESPACE /\ g_RE_PROPERTY = RE_PROPERTY /\ g_RE_INDEX = RE_INDEX /\ g_RE_INT = RE_INT /\
   g_RE_FLOAT = RE_FLOAT /\ g_RE_FUNCTION_NAME = RE_FUNCTION_NAME /\ g_ESCAPES = ESCAPES.
